@@ -1916,8 +1916,10 @@ func (r *Raft) installSnapshot(rpc RPC, req *InstallSnapshotRequest) {
 		return
 	}
 
-	// Increase the term if we see a newer one
-	if req.Term > r.getCurrentTerm() {
+	// Increase the term if we see a newer one, also transition to follower
+	// if we ever get an installSnapshot call (as for appendEntries: a
+	// candidate that has not won its pre-vote is still in the leader's term)
+	if req.Term > r.getCurrentTerm() || (r.getState() != Follower && !r.candidateFromLeadershipTransfer.Load()) {
 		// Ensure transition to follower
 		r.setState(Follower)
 		r.setCurrentTerm(req.Term)
